@@ -97,11 +97,25 @@ type Failure struct {
 
 var cur atomic.Pointer[Sim]
 
-// Active reports whether a simulation is running.
-func Active() bool { return cur.Load() != nil }
+// inBubble reports whether the calling goroutine runs inside a synctest bubble:
+// there the clock starts at 2000-01-01 and a run covers at most days.  Hooks
+// reached by goroutines outside the bubble (package init goroutines on the real
+// clock, the test binary's own machinery) must be pass-through.
+func inBubble() bool { return time.Now().Year() < 2015 }
 
-// Current returns the active simulation or nil.
-func Current() *Sim { return cur.Load() }
+func active() *Sim {
+	s := cur.Load()
+	if s == nil || !inBubble() {
+		return nil
+	}
+	return s
+}
+
+// Active reports whether the caller runs inside a simulation.
+func Active() bool { return active() != nil }
+
+// Current returns the simulation the caller runs in, or nil.
+func Current() *Sim { return active() }
 
 var debugGoidEnv = os.Getenv("VERIF_GOID") != ""
 
@@ -202,7 +216,7 @@ func (s *Sim) checkCaller(t *Task, where string) {
 // order relative to other tasks matters.  It returns the calling task, which
 // must be handed to Post after the operation.
 func Pre(site string) *Task {
-	s := cur.Load()
+	s := active()
 	if s == nil {
 		return nil
 	}
@@ -290,7 +304,7 @@ func Yield(site string) { Pre(site) }
 
 // Go starts fn as a new task (instrumented `go` statement).
 func Go(site string, fn func()) {
-	s := cur.Load()
+	s := active()
 	if s == nil {
 		go fn()
 		return
@@ -308,7 +322,7 @@ func Go(site string, fn func()) {
 
 // AfterFunc is the instrumented time.AfterFunc: f runs as a task.
 func AfterFunc(d time.Duration, f func()) *time.Timer {
-	s := cur.Load()
+	s := active()
 	if s == nil {
 		return time.AfterFunc(d, f)
 	}
@@ -355,7 +369,7 @@ func Sleep(d time.Duration) {
 
 // Gosched is the instrumented runtime.Gosched: a forced switch.
 func Gosched() {
-	s := cur.Load()
+	s := active()
 	if s == nil {
 		runtime.Gosched()
 		return
